@@ -167,6 +167,150 @@ def r_reset(ctx):
     return len(cells)
 
 
+# ---------------------------------------------------------------------------------------------------
+# R-RESET, continued: state that survives the construction of a new PEP without being a class attribute or a module-level object --
+# the table of a memoising decorator and a default argument evaluated once
+# ---------------------------------------------------------------------------------------------------
+MEMO_DECORATORS = {"lru_cache", "cache"}
+
+
+def _memo_name(node, module=None):
+    """`lru_cache`, `functools.lru_cache`, `lru_cache(maxsize=None)`, `functools.cache` ... -> the name of the memoising decorator, else None."""
+    f = node.func if isinstance(node, ast.Call) and not (node.args and isinstance(node.func, (ast.Name, ast.Attribute))
+                                                          and ((dotted(node.func) or "").split(".")[-1] in MEMO_DECORATORS
+                                                               or (module is not None and isinstance(node.func, ast.Name)
+                                                                   and (module.imports.get(node.func.id) or (None, None))[1] in MEMO_DECORATORS))
+                                                          and isinstance(node.args[0], (ast.Name, ast.Attribute, ast.Lambda))) else node
+    if isinstance(f, ast.Call):          # lru_cache(maxsize=None)(g)
+        f = f.func
+    d = dotted(f) or ""
+    if not d and isinstance(f, ast.Attribute):
+        d = "<expr>." + f.attr
+    if isinstance(f, ast.Name) and module is not None and f.id in module.imports and module.imports[f.id][1]:
+        d = "%s.%s" % module.imports[f.id]          # `from functools import lru_cache as memo`
+    return d if d.split(".")[-1] in MEMO_DECORATORS else None
+
+
+def _attrs_written_after_construction(repo):
+    out = set()
+    for fn in repo.all_functions():
+        if fn.name == "__init__":
+            continue
+        for w in effects.writes_of(repo, fn):
+            if w.root.startswith("class:") or w.root.startswith("global:"):
+                continue
+            last = w.path.rsplit(".", 1)[-1] if "." in w.path else None
+            if last and last.isidentifier():
+                out.add(last)
+    return out
+
+
+def r_process_memo(ctx):
+    """A table kept by functools.lru_cache / functools.cache lives as long as the process and is not touched by the reset routine: the memoised function
+    must be a function of its arguments taken as values.  A mutable default argument is created once per process: it must not be written or handed out."""
+    repo = ctx.repo
+    cells = class_state_cells(repo)
+    memo = []       # (function node or None, where node, module, decorator name)
+    n_fn = 0
+    nested = []
+    for fn in repo.all_functions():
+        n_fn += 1
+        nested.append(fn)
+        for n in ast.walk(fn):
+            if isinstance(n, ast.FunctionDef) and n is not fn:
+                if not hasattr(n, "_module"):
+                    n._module, n._cls = fn._module, getattr(fn, "_cls", None)
+                nested.append(n)
+    for fn in nested:
+        for d in fn.decorator_list:
+            nm = _memo_name(d, fn._module)
+            if nm:
+                memo.append((fn, d, fn._module, nm))
+    for m in repo.modules.values():
+        for n in ast.walk(m.tree):
+            if isinstance(n, ast.Call) and not isinstance(getattr(n, "_parent", None), ast.FunctionDef):
+                nm = _memo_name(n, m)
+                if nm and n.args and not any(n is d for f, d, _, _ in memo):
+                    inner = n if not isinstance(n.func, ast.Call) else n
+                    target = n.args[0]
+                    g = None
+                    if isinstance(target, ast.Name):
+                        g = m.functions.get(target.id)
+                        if g is None:
+                            r = repo.resolve_name(m, target.id)
+                            g = r if isinstance(r, ast.FunctionDef) else None
+                    elif isinstance(target, ast.Lambda):
+                        g = target
+                        g._module, g._cls = m, None
+                    if isinstance(getattr(n, "_parent", None), ast.Call) and getattr(n._parent, "func", None) is n:
+                        continue        # the outer call of lru_cache(...)(g) is handled through its inner node
+                    memo.append((g, n, m, nm))
+    attrs_written = _attrs_written_after_construction(repo) if memo else set()
+    for g, where, m, nm in memo:
+        line = getattr(where, "lineno", 0)
+        key = "%s::%s" % (m.rel, getattr(g, "name", "<callable>") if g is not None else "<unresolved callable>")
+        if g is None:
+            ctx.ob("R-RESET", key + "::memo table", False, "`%s` (line %d) keeps a process-wide table of results of a callable that the analysis cannot "
+                   "resolve; PEP's reset routine does not clear it" % (src(where)[:60], line), "%s:%d" % (m.rel, line))
+            continue
+        bad = []
+        fns, _, _ = effects.closure(repo, [g]) if isinstance(g, ast.FunctionDef) else ([g], None, None)
+        for f in fns:
+            fparams = params_of(f) if isinstance(f, ast.FunctionDef) else [a.arg for a in f.args.args]
+            for n in ast.walk(f):
+                if isinstance(n, ast.Attribute) and isinstance(n.ctx, ast.Load) and isinstance(n.value, ast.Name):
+                    r = repo.resolve_name(f._module, n.value.id) if hasattr(f, "_module") else None
+                    if isinstance(r, ClassInfo):
+                        owner = next(((c.name, n.attr) for c in r.mro() if (c.name, n.attr) in cells), None)
+                        if owner:
+                            bad.append((f, n, "reads the class-level state `%s.%s`, which every new PEP resets" % owner))
+                    elif f is g and n.value.id in fparams and n.value.id != "self" and n.attr in attrs_written:
+                        bad.append((f, n, "is keyed by the identity of `%s` but reads its attribute `%s`, which is written after construction" % (n.value.id, n.attr)))
+                    elif f is g and n.value.id == "self" and n.attr in attrs_written:
+                        bad.append((f, n, "is keyed by the identity of `self` but reads `self.%s`, which is written after construction" % n.attr))
+            if isinstance(f, ast.FunctionDef):
+                for w in effects.writes_of(repo, f):
+                    if w.root in ("fresh",) or w.root.startswith("unknown"):
+                        continue
+                    bad.append((f, w.node, "writes `%s` (a call answered from the table skips the write)" % w.path))
+        ok = not bad
+        ctx.ob("R-RESET", key + "::memo table", ok,
+               "memoised by `%s`; a function of its arguments only (reads no resettable state, no attribute written after construction, writes nothing)" % nm if ok else
+               "memoised by `%s`: the table outlives the model (it is not cleared by PEP's reset routine) but the function %s [%s line %d]: a later model, "
+               "or a later solve, is answered with what an earlier one computed"
+               % (nm, bad[0][2], qualname(bad[0][0]) if isinstance(bad[0][0], ast.FunctionDef) else "lambda", getattr(bad[0][1], "lineno", 0)),
+               "%s:%d" % (m.rel, line))
+    ctx.count("memoising decorators", len(memo))
+    # default arguments evaluated once
+    n_def = 0
+    for fn in nested:
+        a = fn.args
+        pos = a.posonlyargs + a.args
+        pairs = list(zip(pos[len(pos) - len(a.defaults):], a.defaults)) + [(k, d) for k, d in zip(a.kwonlyargs, a.kw_defaults) if d is not None]
+        for arg, dflt in pairs:
+            if not (_is_mutable_container(dflt) or (isinstance(dflt, ast.Call) and call_name(dflt) in ("list", "dict", "set", "defaultdict", "OrderedDict", "array", "zeros"))):
+                continue
+            n_def += 1
+            name = arg.arg
+            uses = []
+            writes = [w for w in effects.writes_of(repo, fn) if w.root in ("param:" + name, "alias:param:" + name)]
+            for w in writes:
+                uses.append((w.node, "written (`%s`)" % norm_stmt(common.stmt_of(w.node))[:60]))
+            for n in ast.walk(fn):
+                if isinstance(n, ast.Name) and n.id == name and isinstance(n.ctx, ast.Load):
+                    par = getattr(n, "_parent", None)
+                    if isinstance(par, ast.Assign) and par.value is n and any(isinstance(t, (ast.Attribute, ast.Subscript)) for t in par.targets):
+                        uses.append((n, "stored on an object (`%s`)" % norm_stmt(par)[:60]))
+                    elif isinstance(par, ast.Return):
+                        uses.append((n, "returned to the caller"))
+            ctx.ob("R-RESET", "%s::%s::default of `%s`" % (fn._module.rel, qualname(fn), name), not uses,
+                   "the default `%s` is only read" % src(dflt) if not uses else
+                   "the default `%s` is evaluated once per process and is %s: what one call (one model) leaves in it is seen by the next"
+                   % (src(dflt), uses[0][1]), loc(fn, uses[0][0] if uses else fn))
+    ctx.count("mutable default arguments", n_def)
+    ctx.count("functions scanned for memo tables / defaults", len(nested))
+
+
 def _written_through_class(repo, cname, attr):
     for fn in repo.all_functions():
         for w in effects.writes_of(repo, fn):
